@@ -149,7 +149,9 @@ class C09(Cfg):
                   "hence equal content => equal logs whatever the batching, and (hash = identity on what is fed) different per-day signature sets => different logs. "
                   "Every concrete write of the model (local create/update/move/reference/deletion, synchronised rows, synchronised deletion records) covers its days under Defects.none. "
                   "For the code as it is the statement is FALSE: decide-checked witnesses for the dropped history seed, the entity not compared and the emptied day keeping a row "
-                  "(all #20, history hashes only); proved for the code as it is: every MARKED day gets the count and daily hash of its content, and every write of the model marks the days it touches. "
+                  "(all #20, history hashes only; Defects.beforeFixHistory); proved for the code as it is: every MARKED day gets the count and daily hash of its content, every write of the model marks the days it touches "
+                  "(also one deletion query with several reference-deletion entries, C09_model_unrefs), and the window of compute is modelled literally (C09_window_is_sql_window); "
+                  "the full statement is proved for every Defects value with the switches of compute off (C09_log_of_content_of ...), which the code becomes with findings/C09-1..3. "
                   "Regression witnesses (fixed in /repo, switch off, corpus replay kept): the lazily evaluated SELECT (079e672), the old day of a synchronised cross-day update (8123d04), "
                   "the synchronised deletion of another version (1a9cbe6), the reference deletion that re-dates its source row without marking (9b21e0a) or without removing anything (456214b). "
                   "The model is tied to /repo by running both on the same generated multi-day histories and comparing every table of every peer after every op.")
